@@ -188,14 +188,19 @@ func (s *tcDecSim) body() {
 	}
 	baseline := clean.allocated
 	_ = baseline
+	stop := false
 	common := func(what string, o *tcDecOutcome, delivered int) {
+		if stop {
+			return
+		}
+		defer func() { stop = len(s.res.Violations) > 0 }() // one finding per run is enough: giant allocations are slow
 		// TotalAlloc is process-wide and a little noisy: the bound has 4 MiB of slack (every boundary
 		// value from 2^31-1 upwards is far beyond it) and an excess must show twice
 		if limit := uint64(4<<20) + 2*uint64(delivered); o.allocated > limit && o.again != nil && o.again().allocated > limit {
 			s.res.Violate("C04", "bounded-allocation", "allocation-exceeds-delivered-bytes/"+strings.Fields(what)[0], "%s: %d bytes allocated while only %d bytes arrived (bound: 4 MiB + 2 x delivered)", what, o.allocated, delivered)
 		}
 	}
-	for k := 0; k < len(data); k++ {
+	for k := 0; k < len(data) && !stop; k++ {
 		o := tcFeed(data[:k], false, rnd)
 		common(fmt.Sprintf("cut after %d bytes", k), o, k)
 		if k < len(data) && !o.gotErr && o.msgs == count {
@@ -204,12 +209,18 @@ func (s *tcDecSim) body() {
 	}
 	s.res.Fault("stream_cut")
 	for _, f := range fields {
+		if stop {
+			break
+		}
 		o := tcFeed(data[:f.pos+f.width], true, rnd)
 		common("stall after "+f.what, o, f.pos+f.width)
 	}
 	s.res.Fault("stream_stall")
 	for _, f := range fields {
 		for _, v := range simk.BoundaryValues {
+			if stop {
+				break
+			}
 			if f.width < 8 && v >= 1<<(8*uint(f.width)) {
 				v = 1<<(8*uint(f.width)) - 1
 			}
